@@ -42,6 +42,7 @@ class TzInterp(TreeInterp):
         super().__init__(model)
         self.rrule_calls = []
         self.fix_calls = []
+        self.contracts["parser.Contentlines.to_ical"] = TzInterp._lines_to_ical
         old_type = self.type_ctor["type"]
 
         def type_(i, a, k):
@@ -55,8 +56,72 @@ class TzInterp(TreeInterp):
             return old_type.fn(i, a, k)
         self.type_ctor["type"] = Native("type", type_)
 
+    # -- the serialised component as dateutil.tz.tzical reads it
+    def _lines_to_ical(self, args, kwargs):
+        o = Obj(None)
+        o.attrs["__ics_lines__"] = list(self._as_list(args[0]))
+        return o
+
+    def getattr(self, o, name):
+        if isinstance(o, Obj) and "__ics_lines__" in o.attrs and name in ("decode", "encode"):
+            return Native(name, lambda i, a, k, o=o: o)          # the same text, as str / bytes
+        if isinstance(o, Obj) and o.attrs.get("__tzical__") is not None and name == "get":
+            def get(i, a, k, o=o):
+                """dateutil.tz.tzical.get(tzid=None): the zones are keyed by the TZID *as written in the
+                text* (dateutil does not unescape); without an argument the only zone is returned."""
+                want = a[0] if a else k.get("tzid")
+                zones = o.attrs["__tzical__"]
+                if want is None:
+                    if len(zones) != 1:
+                        raise AbsRaise("ValueError", "no or more than one timezone available")
+                    return next(iter(zones.values()))
+                w = self._str(want)
+                if is_opaque(w):
+                    raise Unsupported("tzical.get(<non-concrete id>)")
+                return zones.get(w)
+            return Native("tzical.get", get)
+        return super().getattr(o, name)
+
+    def _tzical(self, i, a, k):
+        src = a[0]
+        if not (isinstance(src, Obj) and "__ics_lines__" in src.attrs):
+            raise Unsupported(f"tzical({src!r})")
+        zones = {}
+        depth = 0
+        cur = None
+        for ln in src.attrs["__ics_lines__"]:
+            if not (isinstance(ln, tuple) and len(ln) == 5 and ln[0] == "line"):
+                continue
+            _, nm, params, value, _srt = ln
+            nm = self._str(nm)
+            raw = value
+            if isinstance(value, Obj) and value.cls is not None and \
+                    self.model.lookup_method(value.cls, "to_ical") is not None:
+                raw = self.call(self.getattr(value, "to_ical"), [], {})
+            if isinstance(raw, bytes):
+                raw = raw.decode("utf-8")
+            raw = raw.strval if isinstance(raw, Obj) and raw.strval is not None else raw
+            if nm == "BEGIN" and raw == "VTIMEZONE":
+                cur = {"tzid": None}
+            elif nm == "TZID" and cur is not None and cur["tzid"] is None:
+                if not isinstance(raw, str) or is_opaque(raw):
+                    raise Unsupported("TZID text is not concrete")
+                cur["tzid"] = raw
+            elif nm == "END" and raw == "VTIMEZONE" and cur is not None:
+                if cur["tzid"] is None:
+                    raise AbsRaise("ValueError", "mandatory TZID not found")
+                zones[cur["tzid"]] = ("tzical-zone", cur["tzid"])
+                cur = None
+        o = Obj(None)
+        o.attrs["__tzical__"] = zones
+        return o
+
     # -- dateutil, by contract
     def _wrap_resolved(self, r, name):
+        if isinstance(r, tuple) and r[0] == "external" and r[1] in ("io.StringIO", "io.BytesIO"):
+            return Native("StringIO", lambda i, a, k: a[0])
+        if isinstance(r, tuple) and r[0] == "external" and r[1] in ("dateutil.tz.tzical", "dateutil.tz.tz.tzical"):
+            return Native("tzical", self._tzical)
         if isinstance(r, tuple) and r[0] == "external" and r[1].split(".")[0] == "dateutil":
             o = NativeObj("dateutil")
             for part in r[1].split(".")[1:]:
@@ -69,6 +134,8 @@ class TzInterp(TreeInterp):
     def _native_obj_attr(self, o, name):
         if o.name == "dateutil" and name in ("tz", "rrule"):
             return NativeObj(f"dateutil.{name}")
+        if o.name == "dateutil.tz" and name == "tzical":
+            return Native("tzical", self._tzical)
         if o.name == "dateutil.tz" and name == "tzoffset":
             def tzoffset(i, a, k):
                 off = a[1] if len(a) > 1 else k.get("offset")
@@ -85,7 +152,8 @@ class TzInterp(TreeInterp):
         if o.name == "dateutil.rrule" and name in ("rrulestr", "rrule"):
             def rrulestr(i, a, k):
                 start = k.get("dtstart")
-                self.rrule_calls.append((a[0] if a else None, start))
+                self.rrule_calls.append((a[0] if a else None, start, {kk: vv for kk, vv in k.items()
+                                                                      if kk != "dtstart"}))
                 if not isinstance(start, DT):
                     raise Unsupported(f"rrulestr(dtstart={start!r})")
                 base = next(iter(start.term)) if start.term else "o"
@@ -138,6 +206,8 @@ CASES = [
                                    ("D", ("rrule", 1), 1 * H, 2 * H, "CEST")]),
     dict(name="RRULE east of UTC, large offset", obs=[("S", ("rrule", 5), 13 * H, 12 * H, "NZST"),
                                                       ("D", ("rrule", 1), 12 * H, 13 * H, "NZDT")]),
+    dict(name="RRULE with UNTIL (UTC)", obs=[("S", ("rrule-until", 5), 2 * H, 1 * H, "CET"),
+                                             ("D", ("rrule-until", 1), 1 * H, 2 * H, "CEST")]),
     dict(name="offset unchanged, name changes", obs=[("S", ("start", 10), 1 * H, 1 * H, "MET"),
                                                      ("S", ("start", 20), 1 * H, 1 * H, "CET"),
                                                      ("D", ("start", 30), 1 * H, 2 * H, "CEST")]),
@@ -180,12 +250,15 @@ def build(it, case):
                 c.items["RDATE"] = it.call(vlist, [dts], {})
             else:
                 c.items["RDATE"] = [it.call(vlist, [[d]], {}) for d in dts]
-        elif spec[0] == "rrule":
+        elif spec[0] in ("rrule", "rrule-until"):
             rec = it.instantiate(m.cls("prop.vRecur"), [], {})
             rec.items["FREQ"] = ["YEARLY"]
+            if spec[0] == "rrule-until":
+                # RFC 5545 3.6.5: the UNTIL of an observance rule is a UTC time
+                rec.items["UNTIL"] = [DT("utc", 10 ** 6, {f"{sym}until": 1})]
             c.items["RRULE"] = rec
             onsets += [(spec[1] + 10 * k, {f"{sym}+{k}y": 1}) for k in (1, 2)]
-            rrule_obs.append((j, sym, fr))
+            rrule_obs.append((j, sym, fr, spec[0] == "rrule-until"))
         for r, term in onsets:
             expected.append((r, term, fr, to, name if name is not None else j, kind == "D"))
         tz.attrs["subcomponents"].append(c)
@@ -270,14 +343,21 @@ def check_transitions(it, case, result, expected, rrule_obs, note):
                 if other != name and (v is nm or (not is_opaque(v) and not is_opaque(nm) and v == nm)):
                     note("tzname", "two observances without TZNAME share one generated name", case=cname)
     # RRULE anchoring
-    for (j, sym, fr) in rrule_obs:
-        mine = [s for (_, s) in it.rrule_calls if isinstance(s, DT) and s.term and sym in s.term]
+    for (j, sym, fr, has_until) in rrule_obs:
+        mine = [(s, kw) for (_, s, kw) in it.rrule_calls if isinstance(s, DT) and s.term and sym in s.term]
         if not mine:
             note("rrule-start", f"the RRULE of observance {j} is not expanded from its DTSTART", case=cname)
             continue
-        s = mine[0]
+        s, kw = mine[0]
+        if has_until and (s.kind == "naive" or it.truth(kw.get("ignoretz", False))):
+            note("rrule-anchor", f"the RRULE of observance {j} has an UNTIL in UTC and is expanded "
+                 f"{'with ignoretz' if kw.get('ignoretz') else 'from a naive DTSTART'}: the UTC digits of "
+                 f"UNTIL are compared with local onset times (off by TZOFFSETFROM = {fr:+d} s: the last onset "
+                 f"is lost east of Greenwich, one too many is produced west of it), or dateutil refuses the rule",
+                 case=cname)
+            continue
         if s.kind == "naive":
-            continue        # naive expansion: UNTIL handling is dateutil's; onsets are the same
+            continue        # no UNTIL: a naive expansion yields the same local onsets
         want = f"fixed{fr:+d}"
         if not (s.kind == "zoned" and s.zone == want) and not (fr == 0 and s.kind == "utc"):
             note("rrule-anchor", f"the RRULE of observance {j} is expanded with DTSTART in "
@@ -349,14 +429,63 @@ def explore(ctx):
     return n, fails
 
 
+ZI_TZIDS = ["Custom/Zone", "(UTC+01:00) Amsterdam, Berlin, Rome", "Semi;colon Zone", "Back\\slash"]
+
+
+def explore_zoneinfo(ctx):
+    """ZONEINFO.create_timezone on VTIMEZONEs whose TZID needs escaping in the text: the zone
+    dateutil builds from the serialised component is the one that is returned (never None)."""
+    model = ctx.model
+    ci = model.cls("timezone.zoneinfo.ZONEINFO")
+    create = model.lookup_method(ci, "create_timezone")
+    if create is None:
+        raise AnalysisError("anchor vanished: ZONEINFO.create_timezone")
+    fails = []
+    n = 0
+    for tzid in ZI_TZIDS:
+        it = TzInterp(model)
+        try:
+            tz, _, _ = build(it, CASES[0])
+            tz.items["TZID"] = it.call(ClassVal(model.cls("prop.vText")), [tzid], {})
+            n += 1
+            try:
+                zone = it.call(Bound(Closure(create), Obj(ci)), [tz], {})
+            except AbsRaise as e:
+                fails.append(("zoneinfo", f"ZONEINFO.create_timezone raises {e.cls_name} for the TZID {tzid!r}",
+                              dict(tzid=tzid)))
+                continue
+            if not (isinstance(zone, tuple) and zone and zone[0] == "tzical-zone"):
+                fails.append(("zoneinfo", f"ZONEINFO.create_timezone returns {zone!r} for a VTIMEZONE with the "
+                              f"TZID {tzid!r}: the zone dateutil builds from the component is keyed by the TZID "
+                              f"as written in the text ({_raw_tzid(it, tz)!r}); every value with this TZID is "
+                              f"then read as naive under zoneinfo while pytz resolves it", dict(tzid=tzid)))
+        except Unsupported as e:
+            raise AnalysisError(f"ZONEINFO.create_timezone leaves the abstract interface on TZID {tzid!r}: {e}")
+    return n, fails
+
+
+def _raw_tzid(it, tz):
+    try:
+        raw = it.call(it.getattr(tz.items["TZID"], "to_ical"), [], {})
+        return raw.decode("utf-8") if isinstance(raw, bytes) else raw
+    except Exception:
+        return None
+
+
+ALIAS["zoneinfo"] = "the zoneinfo provider returns the zone built from the component"
+
+
 def report(ctx, rule, loc, floor):
     n, fails = explore(ctx)
+    n2, fails2 = explore_zoneinfo(ctx)
+    n += n2
+    fails = fails + fails2
     if n < floor:
         raise AnalysisError(f"{rule}: only {n} cases explored (floor {floor})")
     by_law = {}
     for law, desc, d in fails:
         by_law.setdefault(ALIAS.get(law, law), []).append((desc, d))
-    laws = list(dict.fromkeys(list(LAWS) + [ALIAS["total"]]))
+    laws = list(dict.fromkeys(list(LAWS) + [ALIAS["total"], ALIAS["zoneinfo"]]))
     for law in laws:
         bad = by_law.get(law, [])
         if bad:
